@@ -25,6 +25,7 @@ import (
 	"github.com/go-text/typesetting/di"
 	"github.com/go-text/typesetting/font"
 	ot "github.com/go-text/typesetting/font/opentype"
+	"github.com/go-text/typesetting/font/opentype/tables"
 	"github.com/go-text/typesetting/fontscan"
 	"github.com/go-text/typesetting/harfbuzz"
 	"github.com/go-text/typesetting/language"
@@ -583,6 +584,18 @@ func queryFace(ft *font.Font, w func(a ...any), seed uint64, focus []uint16) {
 	w(len(ft.GSUB.Lookups), len(ft.GPOS.Lookups), len(ft.GSUB.Scripts), len(ft.GSUB.Features), len(ft.Morx), len(ft.Kern), len(ft.Kerx))
 	for _, s := range ft.GSUB.Scripts {
 		w(s.Tag, len(s.LangSys))
+	}
+	// ligature carets (GDEF LigCaretList), a query of the buffer-level Font: every glyph the
+	// caret coverage lists among the first 3000, both axes
+	if cov := ft.GDEF.LigCaretList.Coverage; cov != nil {
+		hf := harfbuzz.NewFont(face)
+		n := 0
+		for g := 0; g < 3000 && n < 64; g++ {
+			if _, ok := cov.Index(tables.GlyphID(g)); ok {
+				n++
+				w(hf.GetOTLigatureCarets(harfbuzz.LeftToRight, font.GID(g)), hf.GetOTLigatureCarets(harfbuzz.TopToBottom, font.GID(g)))
+			}
+		}
 	}
 	// shaping with the face: the sampled cmap runes (up to ~66, spread over the character
 	// map, so that substitution / positioning / morx / kerx lookups are actually reached),
